@@ -1,4 +1,5 @@
 pub mod data;
+pub mod dicts;
 pub mod frames;
 pub mod framespec;
 pub mod refcfg;
